@@ -169,6 +169,30 @@ def fam_graphs(nmods, both_orders=True):
             yield ("graph", tree, "main.bloch", ["."], ".", False, {})
 
 
+def fam_graphs_with_wildcards(nmods):
+    """every symbol-import digraph on entry + nmods modules x every subset of files that additionally start with 'import g.*;'
+    (the wildcard names a directory that contains the importer itself and every other module)"""
+    names = ["main"] + ["M%d" % i for i in range(1, nmods + 1)]
+    n = len(names)
+    pairs = [(i, j) for i in range(n) for j in range(n) if j != 0]
+    for bits in range(1 << len(pairs)):
+        edges = {i: [] for i in range(n)}
+        for k, (i, j) in enumerate(pairs):
+            if (bits >> k) & 1:
+                edges[i].append(j)
+        for wild in range(1, 1 << n):
+            tree = {}
+            for i, nm in enumerate(names):
+                imps = [(["g", names[j]], False) for j in sorted(edges[i])]
+                if (wild >> i) & 1:
+                    imps = [(["g"], True)] + imps
+                if i == 0:
+                    tree["main.bloch"] = Mod(None, imps, fn="f_main", main=True)
+                else:
+                    tree["g/%s.bloch" % nm] = Mod(["g"], imps, fn="f_" + nm)
+            yield ("graph+wild", tree, "main.bloch", ["."], ".", False, {})
+
+
 def fam_wild_graphs():
     """wildcard imports of a directory that contains the importer, chains through wildcards"""
     for m1_imps in ([], [(["g"], True)], [(["g", "M2"], False)], [(["g"], True), (["g", "M2"], False)]):
@@ -281,6 +305,7 @@ def main(tier):
     ck = vcheck.Check("C19", "model_checking", tier)
     cases = list(fam_resolution()) + list(fam_wild_graphs()) + list(fam_main_count()) + list(fam_alias()) + list(fam_missing())
     cases += list(fam_graphs(3, True))
+    cases += list(fam_graphs_with_wildcards(3 if tier == "thorough" else 2))
     states = set()
     outcomes = {}
     n = 0
